@@ -4,4 +4,5 @@ MCTmpl == {"A", "B"}
 MCTmpl3 == {"A", "B", "C"}
 MCObj == {"x", "y", "z"}
 MCTObjs == [ t \in MCTmpl3 |-> CASE t = "A" -> {"x", "y"} [] t = "B" -> {"x", "z"} [] t = "C" -> {"z"} ]
+MCTrue == TRUE
 ====
